@@ -198,6 +198,21 @@ func (e *Engine) resolveContract(c *Contract) (string, bool, error) {
 		c.ParentRecv = c.Recv
 		return pk + c.Name[i:], false, nil
 	}
+	if c.Flags["ifacedefault"] != "" {
+		tn, ok := tp.Scope().Lookup(c.Name).(*types.TypeName)
+		if !ok {
+			return "", false, fmt.Errorf("no type %s in %s", c.Name, c.PkgPath)
+		}
+		if _, ok := tn.Type().Underlying().(*types.Interface); !ok {
+			return "", false, fmt.Errorf("%s is not an interface", c.Name)
+		}
+		c.Trusted = true
+		c.IsIface = true
+		if c.TrustedWhy == "" {
+			c.TrustedWhy = "default contract for the methods of a user-implemented interface"
+		}
+		return "ifacedefault:" + c.PkgPath + "." + c.Name, true, nil
+	}
 	if c.Flags["funcfield"] != "" {
 		parts := strings.Split(c.Name, ".")
 		if len(parts) != 2 {
